@@ -483,6 +483,7 @@ func abandoned(id string, seed uint64) runner.Result {
 		}
 	})
 	var b []byte
+	var chunks [][]byte // one per call: a conforming client starts a call only when the previous one has ended
 	sid := uint64(1)
 	want := map[uint64]map[string]string{}
 	var desc []string
@@ -518,9 +519,13 @@ func abandoned(id string, seed uint64) runner.Result {
 			desc = append(desc, fmt.Sprintf("s%d:call", sid))
 		}
 		sid++
+		chunks = append(chunks, b)
+		b = nil
 	}
-	raw.Write(b)
-	census.Quiesce(rig.Watchdog)
+	for _, c := range chunks {
+		raw.Write(c)
+		census.Quiesce(rig.Watchdog)
+	}
 	mu.Lock()
 	defer mu.Unlock()
 	var fails []string
